@@ -526,9 +526,22 @@ pub fn run_verify(info: &MatInfo, caller: &[(Option<String>, KeySpec)], dir: &Pa
     run_verify_keys(&block, keys, dir, step_name)
 }
 
-/// Call `in_toto_verify` with an explicit key map.
+/// The `step_name` argument actually passed for this layout (see `run_verify_keys`).
+pub fn effective_step_name<'a>(block: &Metablock, step_name: Option<&'a str>) -> Option<&'a str> {
+    let pick = block.signatures.first().map(|s| s.value().as_bytes().iter().fold(0u32, |a, b| a.wrapping_mul(31).wrapping_add(*b as u32))).unwrap_or(1);
+    match step_name {
+        Some(n) => Some(n),
+        None if pick % 3 == 0 => Some("named-summary"),
+        None => None,
+    }
+}
+
+/// Call `in_toto_verify` with an explicit key map. When the caller does not care under which name
+/// the summary link is returned, a third of the layouts (chosen by their signatures) are verified
+/// with the optional `step_name` argument set - the verdict must not depend on it.
 pub fn run_verify_keys(block: &Metablock, keys: HashMap<KeyId, PublicKey>, dir: &Path, step_name: Option<&str>) -> Option<Result<Metablock, String>> {
     let dir_s = dir.to_str().expect("utf8 dir");
+    let step_name = effective_step_name(block, step_name);
     Some(in_toto::verifylib::in_toto_verify(block, keys, dir_s, step_name).map_err(|e| e.to_string()))
 }
 
